@@ -114,6 +114,7 @@ func main() {
 	mount("")
 	mount("vsync")
 	mount("vrand")
+	mount("vatomic")
 	if *extra != "" {
 		for _, kv := range strings.Split(*extra, ",") {
 			parts := strings.SplitN(kv, "=", 2)
@@ -273,7 +274,12 @@ func (c *ctx) rewriteFile() {
 				imp.Name = ast.NewIdent("rand")
 			}
 			imp.Path.Value = strconv.Quote(rtPath + "/vrand")
-		case "sync/atomic", "time", "math/rand", "math/rand/v2", "os/signal", "unsafe", "C", "runtime", "context":
+		case "sync/atomic":
+			if imp.Name == nil {
+				imp.Name = ast.NewIdent("atomic")
+			}
+			imp.Path.Value = strconv.Quote(rtPath + "/vatomic")
+		case "time", "math/rand", "math/rand/v2", "os/signal", "unsafe", "C", "runtime", "context":
 			refuse(c.fset, imp.Pos(), "import of "+path)
 		}
 	}
@@ -756,7 +762,7 @@ func (l *logger) hasAccess(e ast.Expr) bool {
 
 func isSyncType(t types.Type) bool {
 	s := t.String()
-	return strings.HasPrefix(s, "sync.") || strings.HasPrefix(s, "*sync.")
+	return strings.HasPrefix(s, "sync.") || strings.HasPrefix(s, "*sync.") || strings.HasPrefix(s, "sync/atomic.") || strings.HasPrefix(s, "*sync/atomic.") || strings.HasPrefix(s, "atomic.")
 }
 
 var mutators = map[string]bool{
